@@ -41,7 +41,7 @@ MUTATIONS = [
     ("M10", "Set creates the missing parents but forgets to link the first one", SYNC,
      "\t\t\tnewMap := make(map[string]any)\n\t\t\tcurrent[elements[i]] = newMap\n\t\t\tcurrent = newMap\n",
      "\t\t\tnewMap := make(map[string]any)\n\t\t\tif i > 0 {\n\t\t\t\tcurrent[elements[i]] = newMap\n\t\t\t}\n\t\t\tcurrent = newMap\n"),
-    ("M11", "SyncMap.Get answers without the read lock and SyncMap.Set stores key+value swapped default (Set ignores a second write)", SYNC,
+    ("M11", "SyncMap.Set ignores a second write to the same key", SYNC,
      "\tsm.mutex.Lock()\n\tsm.data[key] = value\n\tsm.mutex.Unlock()\n",
      "\tsm.mutex.Lock()\n\tif _, ok := sm.data[key]; !ok {\n\t\tsm.data[key] = value\n\t}\n\tsm.mutex.Unlock()\n"),
     ("M12", "Instance.Schema type-asserts node metadata unchecked again", INST,
